@@ -129,4 +129,34 @@ noncomputable instance : Field (Cx K) where
   qsmul_def := fun _ _ => rfl
 end ordered
 
+section immittance
+variable {K : Type} [Field K]
+set_option linter.unusedSimpArgs false
+
+theorem x_div_sq (x : K) : x / (x * x) = 1 / x := by
+  by_cases h : x = 0
+  · subst h; simp
+  · field_simp
+
+/-- 1/(j x) = −j/x  (also at x = 0 under the common totalisation) -/
+theorem inv_jx (x : K) : (1 : Cx K) / ⟨0, x⟩ = ⟨0, -(1 / x)⟩ := by
+  ext <;> simp [normSq]
+  rw [neg_div, x_div_sq]; simp
+
+theorem inv_rx (r : K) : (1 : Cx K) / ⟨r, 0⟩ = ⟨1 / r, 0⟩ := by
+  ext <;> simp [normSq]
+
+theorem inv_inv_jx (x : K) : (1 : Cx K) / (1 / ⟨0, x⟩) = ⟨0, x⟩ := by
+  rw [inv_jx, inv_jx]
+  ext <;> simp
+
+theorem serRLC_at_jw (w r l c : K) :
+    (0 : Cx K) + (0 + ofReal r + ⟨0, w * l⟩) + ⟨0, -(1 / (w * c))⟩ = ⟨r, w * l - 1 / (w * c)⟩ := by
+  ext <;> simp
+  ring
+
+theorem jw_mul_ofReal (w c : K) : jw w * ofReal c = ⟨0, w * c⟩ := by ext <;> simp
+
+end immittance
+
 end Lcapy.Cx
